@@ -211,6 +211,40 @@ pub fn row(out: &mut String, r: &[KAction], cu: &mut Customs) {
     out.push('\n');
 }
 
+/// `CHV2 <min-idle> <n>` then one `CH2 <nkeys> k.. <pending> <first-release 0|1> <ndisabled> l.. <action>` per chord (sorted by keys)
+pub fn chords_v2(out: &mut String, l: &'static BorrowedKLayout<'static>, min_idle: u16, cu: &mut Customs) {
+    let Some(ch) = l.chords_v2.as_ref() else { return };
+    let mut all: Vec<&kanata_keyberon::chord::ChordV2<'static, KanataCustom>> = vec![];
+    for cfk in ch.chords().mapping.values() {
+        for c in cfk.chords.iter() {
+            if !all.iter().any(|x| x.participating_keys == c.participating_keys) {
+                all.push(*c);
+            }
+        }
+    }
+    all.sort_by(|a, b| a.participating_keys.cmp(b.participating_keys));
+    writeln!(out, "CHV2 {} {}", min_idle, all.len()).unwrap();
+    for c in all {
+        write!(out, "CH2 {} ", c.participating_keys.len()).unwrap();
+        for k in c.participating_keys {
+            write!(out, "{k} ").unwrap();
+        }
+        write!(
+            out,
+            "{} {} {} ",
+            c.pending_duration,
+            (c.release_behaviour == kanata_keyberon::chord::ReleaseBehaviour::OnFirstRelease) as u8,
+            c.disabled_layers.len()
+        )
+        .unwrap();
+        for d in c.disabled_layers {
+            write!(out, "{d} ").unwrap();
+        }
+        action(out, c.action, cu);
+        out.push('\n');
+    }
+}
+
 /// Dump of the layout configuration: option line, src_keys row, then two rows per layer.
 pub fn layout_cfg(cfg: &Cfg, cu: &mut Customs) -> String {
     let mut out = String::new();
@@ -233,6 +267,7 @@ pub fn layout_cfg(cfg: &Cfg, cu: &mut Customs) -> String {
         row(&mut out, &layer[0][..], cu);
         row(&mut out, &layer[1][..], cu);
     }
+    chords_v2(&mut out, l, cfg.options.chords_v2_min_idle, cu);
     out
 }
 
@@ -342,7 +377,7 @@ pub fn custom_action(out: &mut String, a: &CustomAction) {
 pub fn kanata_cfg(k: &kanata_state_machine::Kanata, opts: &CfgOptions, cu: &mut Customs) -> String {
     let mut out = String::new();
     let l: &'static BorrowedKLayout<'static> = unsafe { std::mem::transmute(k.layout.b()) };
-    out.push_str(&layout_of(l, cu));
+    out.push_str(&layout_of(l, opts.chords_v2_min_idle, cu));
     writeln!(
         out,
         "KCFG {} {} {} {} {} {} {} {} {}",
@@ -411,7 +446,7 @@ pub fn kanata_cfg(k: &kanata_state_machine::Kanata, opts: &CfgOptions, cu: &mut 
     out
 }
 
-pub fn layout_of(l: &'static BorrowedKLayout<'static>, cu: &mut Customs) -> String {
+pub fn layout_of(l: &'static BorrowedKLayout<'static>, min_idle: u16, cu: &mut Customs) -> String {
     let mut out = String::new();
     writeln!(
         out,
@@ -429,5 +464,6 @@ pub fn layout_of(l: &'static BorrowedKLayout<'static>, cu: &mut Customs) -> Stri
         row(&mut out, &layer[0][..], cu);
         row(&mut out, &layer[1][..], cu);
     }
+    chords_v2(&mut out, l, min_idle, cu);
     out
 }
